@@ -55,16 +55,16 @@ func init() {
 		Doc:      "every EncodeView call that writes into a table file (writer obtained from (*file.Handler).FileForUpdate) receives as options the result of (*FileInfo).ExportOptions called on the FileInfo of the view being written — never the session options",
 		Controls: []string{"CtlEncodeWithSessionOptions"},
 		Run:      ruleFmt1})
-	Register(&Rule{ID: "R-FMT-2", Props: []string{"C02"}, Floor: 10,
-		Doc:      "(*FileInfo).ExportOptions copies each of the 10 dialect fields (Format, Delimiter, DelimiterPositions, SingleLine, Encoding, LineBreak, NoHeader→WithoutHeader, EncloseAll, JsonEscape, PrettyPrint) of the returned options from the receiver; the last store to each field before the return is a load of the receiver's field (composite literal and field-store spellings alike)",
-		Controls: []string{"CtlExportOptionsKeepsSessionEncoding"},
+	Register(&Rule{ID: "R-FMT-2", Props: []string{"C02"}, Floor: 20,
+		Doc:      "(*FileInfo).ExportOptions copies each of the 10 dialect fields (Format, Delimiter, DelimiterPositions, SingleLine, Encoding, LineBreak, NoHeader→WithoutHeader, EncloseAll, JsonEscape, PrettyPrint) of the returned options from the receiver; the last store to each field before the return is a load of the receiver's field (composite literal and field-store spellings alike). The presentation field Color is the constant false in the returned options (ANSI escape sequences are for the terminal: a coloured JSON file cannot be loaded again). The field table is complete: every field of option.ExportOptions that an encoder of the six file formats reads (the lib/query functions reachable from EncodeView, the text-table encoder excepted) is one of the 10 dialect fields, a constant field, or a listed session-level value-spelling switch (ScientificNotation)",
+		Controls: []string{"CtlExportOptionsKeepsSessionEncoding", "CtlExportOptionsKeepsSessionColor"},
 		Run:      ruleFmt2})
 	Register(&Rule{ID: "R-FMT-3", Props: []string{"C02"}, Floor: 11,
 		Doc:      "each loader dispatched by loadViewFromFile records what it detects in the FileInfo it was given: detected encoding → Encoding, reader.DetectedLineBreak → LineBreak, reader.EnclosedAll → EncloseAll, JSON escape type → JsonEscape and UTF8 → Encoding for the JSON loaders (one obligation per detection source the loader creates)",
 		Controls: []string{"CtlLoaderDropsLineBreak", "CtlLoaderHelperDropsEncoding"},
 		Run:      ruleFmt3})
 	Register(&Rule{ID: "R-FMT-4", Props: []string{"C02"}, Floor: 2,
-		Doc:      "in Transaction.Commit and the lib/query helpers of the commit path (those that reach an os.File write and are handed a file / writer / handler / FileInfo / view; EncodeView and FileInfo.ExportOptions excluded) (i) none of the 10 dialect fields of the session options tx.Flags.ExportOptions is read, also not through a local copy of the flags, and (ii) every line break written directly into a table file (os.File.Write / WriteString / io.Writer.Write whose bytes come from a LineBreak.Value() or a CR/LF constant, followed through conversions, locals, phis and helper parameters) is made from the LineBreak of the FileInfo being written or of its own ExportOptions — a session-flag or constant origin is reported as such",
+		Doc:      "in Transaction.Commit and the lib/query helpers of the commit path (those that reach an os.File write and are handed a file / writer / handler / FileInfo / view; EncodeView and FileInfo.ExportOptions excluded) (i) none of the 10 dialect fields and no presentation field (Color) of the session options tx.Flags.ExportOptions is read, also not through a local copy of the flags, and (ii) every line break written directly into a table file (os.File.Write / WriteString / io.Writer.Write whose bytes come from a LineBreak.Value() or a CR/LF constant, followed through conversions, locals, phis and helper parameters) is made from the LineBreak of the FileInfo being written or of its own ExportOptions — a session-flag or constant origin is reported as such",
 		Controls: []string{"CtlCommitReadsSessionLineBreak", "CtlCommitHoistedSessionLineBreak"},
 		Run:      ruleFmt4})
 	Register(&Rule{ID: "R-FMT-5", Props: []string{"C02"}, Floor: 20,
@@ -288,6 +288,7 @@ func ruleFmt2(c *Ctx) {
 	if fn := c.Fn(fxExportOptions); fn != nil {
 		fxCheckDialectCopy(c, fn)
 	}
+	fxCheckOptionTableComplete(c)
 	for _, fn := range fxCtlFuncs(c) {
 		if strings.HasPrefix(fn.Name(), "CtlExportOptions") || strings.HasPrefix(fn.Name(), "okExportOptions") {
 			c.Touch(fn)
@@ -303,6 +304,7 @@ func fxCheckDialectCopy(c *Ctx, fn *ssa.Function) {
 		c.Unknown(c.KeyAt(fn, "dialect copy"), c.FnPos(fn), "cannot-analyse: no *FileInfo parameter or no return")
 		return
 	}
+	fxCheckFileConstFields(c, fn, rets)
 	for _, d := range fxDialect {
 		key := c.KeyAt(fn, "ExportOptions."+d.Out+" <- FileInfo."+d.In)
 		status, why, pos := Discharged, "", c.FnPos(fn)
@@ -921,7 +923,9 @@ func ruleFmt4(c *Ctx) {
 				}
 				n[f]++
 				key := c.KeyAt(fn, fmt.Sprintf("session ExportOptions.%s read #%d", f, n[f]))
-				if fxIsDialectField(f) {
+				if _, isConst := fxFileConst[f]; isConst {
+					c.Bad(key, c.Pos(in), fmt.Sprintf("the commit path reads the session's %s (tx.Flags.ExportOptions.%s) while writing a table file; %s", f, f, fxFileConstWhy[f]))
+				} else if fxIsDialectField(f) {
 					c.Bad(key, c.Pos(in), fmt.Sprintf("the commit path reads the session's %s (tx.Flags.ExportOptions.%s) while writing a table file; the file's own dialect (FileInfo.%s / the options returned by FileInfo.ExportOptions) must be used — a file loaded with a different %s is rewritten inconsistently", f, f, fxInName(f), f))
 				} else {
 					c.Ok(key, c.Pos(in), f+" is a session-level output switch, not part of a file's dialect")
